@@ -2,7 +2,7 @@
 from specs import conc, snapshot
 
 LEVEL = 'proof'
-UNITS = conc.units('C09') + [snapshot.producer_unit('C09'), snapshot.run_unit('C09'), snapshot.producer_start_unit('C09')]
+UNITS = conc.units('C09') + [snapshot.producer_unit('C09'), snapshot.run_unit('C09'), snapshot.producer_start_unit('C09'), snapshot.locals_unit('C09')]
 from specs import families as _families
 UNITS = _families.with_families('C09', UNITS)
 BOUNDED = [
